@@ -438,5 +438,21 @@ def r_work_amount(ctx):
                           f"{[show(x) for x in extra]})", "processscheduler/solver.py")
 
 
+def r_reported_assignment(ctx):
+    """'every scheduled task occupies each required worker for ...' is read by the user from the returned schedule: the
+    assignment a resource reports is the model value of the stored busy pair, listed exactly when the task lists the resource
+    (R-VIEW-SYMMETRY, shared with C11)"""
+    from rules import solution
+    solution.r_view_symmetry(ctx)
+
+
+def r_declared_reaches_solver(ctx):
+    """what is declared before solve() is what the solver asserts: the constraint system is built lazily, once, by the first
+    answering call and never by the solver's constructor (R-INIT-ONCE, shared with C13)"""
+    from rules import driver
+    driver.r_init_once(ctx)
+
+
 RULES = [r_pairwise, r_busy_bind, r_select_workers, r_neg_point, r_cumul, r_work_amount,
-         lambda ctx: task_rules.r_drain(ctx, only=("workers", "tasks"))]
+         lambda ctx: task_rules.r_drain(ctx, only=("workers", "tasks")), r_reported_assignment, r_declared_reaches_solver,
+         lambda ctx: __import__("rules.validation", fromlist=["x"]).r_dup_name(ctx, only=('add_resource_worker', 'add_resource_select_workers', 'add_resource_cumulative_worker'))]
